@@ -7,7 +7,7 @@ from . import pathbase
 
 PROP = 'C20'
 LEVEL = 'exploration'
-ALPHAS = [1, 2.5]
+ALPHAS = [1, 2.5, 1 / 3]     # 1/3 is not a multiple of 0.01: its 2-decimal result key differs from the value
 PATH_TYPES = ['shortest', 'fastest', 'foremost', 'fastest_shortest', 'shortest_fastest']
 TOL = 1e-9
 _PATCHED = [False]
@@ -230,7 +230,7 @@ def run(tier, seed):
         assumptions=['scores are compared at absolute tolerance 1e-9', 'static categorical labels, one label attribute, no hierarchies',
                      'tqdm progress output of the two algorithm modules is replaced by a pass-through'],
         rule='every labelled undirected temporal graph of the universes in per_universe (all subsets of pairs x T up to k timed interactions x '
-             'all 2-valued labellings incl. the uniform ones) x start in T + one non-id instant x delta x alphas [1, 2.5] x the 5 path types: '
+             'all 2-valued labellings incl. the uniform ones) x start in T + one non-id instant x delta x alphas [1, 2.5, 1/3] x the 5 path types: '
              'None iff no snapshot id in [start,start+delta]; keys = alphas -> profile -> exactly the nodes with an interaction at start; scores in '
              '[-1,1]; equality with the run on swapped label values; equality with the runs on the graph renamed by a transposition and by a full '
              'cycle of the node ids; uniform labels => 1 for a node that reaches another node in the window (independent brute force) and 0 '
